@@ -15,3 +15,98 @@ pub fn kind_from(v: u8) -> TokenKind {
     assert!(v <= LAST_KIND);
     unsafe { std::mem::transmute::<u8, TokenKind>(v) }
 }
+
+// ---------------------------------------------------------------------------
+// SymStream: a TokenStream that yields an arbitrary (kind, width) sequence
+// satisfying exactly the L0 contract, then Eof forever.
+
+use crate::token_stream::TokenStream;
+use ecow::EcoString;
+use std::ops::Range;
+
+pub const CAP: usize = 8;
+
+pub struct SymStream<'a> {
+    pub kinds: [TokenKind; CAP],
+    pub widths: [u8; CAP],
+    /// which of the two macro names an Id token spells (false = "M", true = "N")
+    pub name_n: [bool; CAP],
+    pub n: usize,
+    pub pos: usize,
+    pub cur: usize,
+    pub has_err: bool,
+    pub last_name_n: bool,
+    pub eats: u32,
+    pub _p: std::marker::PhantomData<&'a ()>,
+}
+
+impl<'a> SymStream<'a> {
+    /// n tokens of arbitrary non-Eof kind, widths 1..=2
+    pub fn any(n: usize) -> Self {
+        assert!(n <= CAP);
+        let mut kinds = [TokenKind::Eof; CAP];
+        let mut widths = [0u8; CAP];
+        let mut name_n = [false; CAP];
+        let mut i = 0;
+        while i < CAP {
+            if i < n {
+                let k = any_kind();
+                kani::assume(k != TokenKind::Eof);
+                kinds[i] = k;
+                let w: u8 = kani::any();
+                kani::assume(w >= 1 && w <= 2);
+                widths[i] = w;
+                name_n[i] = kani::any();
+            }
+            i += 1;
+        }
+        SymStream { kinds, widths, name_n, n, pos: 0, cur: 0, has_err: false, last_name_n: false, eats: 0,
+                    _p: std::marker::PhantomData }
+    }
+    pub fn offset_of(&self, idx: usize) -> usize {
+        let mut o = 0usize;
+        let mut i = 0;
+        while i < CAP {
+            if i < idx && i < self.n {
+                o += self.widths[i] as usize;
+            }
+            i += 1;
+        }
+        o
+    }
+}
+
+impl<'a> TokenStream for SymStream<'a> {
+    fn eat(&mut self) -> TokenKind {
+        self.eats += 1;
+        if self.pos >= self.n {
+            return TokenKind::Eof;
+        }
+        let k = self.kinds[self.pos];
+        self.cur += self.widths[self.pos] as usize;
+        self.last_name_n = self.name_n[self.pos];
+        self.pos += 1;
+        if k == TokenKind::Error {
+            self.has_err = true;
+        }
+        k
+    }
+    fn cursor(&self) -> usize {
+        self.cur
+    }
+    fn text(&self, _range: Range<usize>) -> &str {
+        if self.last_name_n { "N" } else { "M" }
+    }
+    fn take_error(&mut self) -> Option<EcoString> {
+        if self.has_err {
+            self.has_err = false;
+            Some(EcoString::inline("e"))
+        } else {
+            None
+        }
+    }
+}
+
+pub fn fixed_random_state() -> std::hash::RandomState {
+    unsafe { std::mem::transmute::<[u64; 2], std::hash::RandomState>([0u64; 2]) }
+}
